@@ -230,7 +230,14 @@ def write_replay(prop, sig, hit, sc, orig_sc, seed, shrink_runs):
     path = os.path.join(os.environ.get("VERIF_REPLAY_DIR") or os.path.join(VERIF_DIR, "replays"), f"{prop}-{h8}-{seed}.json")
     os.makedirs(os.path.dirname(path), exist_ok=True)
     mine = [h for h in res["hits"] if sig_key(sig_of(h)) == k]
+    def size_of(x):
+        x = unjson(x)
+        ops = x.get("ops", [])
+        return {"ops": len(ops), "requests": sum(len(o.get("reqs", o.get("addrs", []))) for o in ops),
+                "faults": len(x.get("faults", []) or []),
+                "tags": len((x.get("world", {}).get("project") or {}).get("tags", []))}
     doc = {"property": prop, "signature": sig, "violation": jsonable(mine[0] if mine else hit),
+           "size_before_minimisation": size_of(orig_sc), "size_after_minimisation": size_of(sc2),
            "scenario": jsonable(sc2), "original_seed": seed, "shrink_runs": shrink_runs,
            "digest": res["digest"], "repo": repo_fingerprint(),
            "trace": jsonable((res.get("events") or [])[-400:])}
